@@ -327,7 +327,8 @@ where
             }
             Decoded::Packet(Packet::PublishRelease(ack), size) => {
                 if self.inner.info.borrow().inflight.contains(&ack.packet_id) {
-                    self.inner.control(ProtocolMessage::pubrel(ack, size)).await
+                    let packet_id = ack.packet_id.get();
+                    self.inner.control_pkt(ProtocolMessage::pubrel(ack, size), packet_id).await
                 } else {
                     Ok(Some(Encoded::Packet(codec::Packet::PublishComplete(
                         codec::PublishAck2 {
@@ -524,6 +525,10 @@ where
 
     if let Some(id) = num::NonZeroU16::new(packet_id) {
         let ack = if qos2 {
+            // exchange is completed if publish is refused, no PUBREL follows
+            if ack.reason_code as u8 >= 0x80 {
+                inner.info.borrow_mut().inflight.remove(&id);
+            }
             codec::Packet::PublishReceived(codec::PublishAck {
                 packet_id: id,
                 reason_code: ack.reason_code,
